@@ -30,6 +30,20 @@ def ident(o):
     return ["other", type(o).__name__]
 
 
+def site_ident(o):
+    """identity by definition site (C04 `pyimp` stream): module name, or __module__.__qualname__ of a
+    class / function, or the value of an int constant"""
+    if isinstance(o, types.ModuleType):
+        return "m:" + o.__name__
+    if isinstance(o, (classmethod, staticmethod)):
+        return site_ident(o.__func__)
+    if isinstance(o, (type, types.FunctionType)):
+        return "d:%s.%s" % (o.__module__, o.__qualname__)
+    if isinstance(o, int) and not isinstance(o, bool):
+        return "v:%d" % o
+    return "o:" + type(o).__name__
+
+
 def public(ns):
     return [(k, v) for k, v in ns.items() if not (k.startswith("__") and k.endswith("__"))]
 
@@ -44,6 +58,53 @@ def extend(scope_out, prefix, value, depth, seen):
             except Exception:
                 continue
             extend(scope_out, prefix + "." + k, v, depth + 1, seen | {id(value)})
+
+
+def extend_sites(scope_out, prefix, value, depth, seen):
+    """like extend(), with definition-site identities, and for classes every name found along the MRO"""
+    if depth > 2 or id(value) in seen:
+        return
+    if isinstance(value, types.ModuleType):
+        names = [k for k, _ in public(vars(value))]
+    elif isinstance(value, type):
+        names = []
+        for c in value.__mro__:
+            if c is object:
+                continue
+            for k, _ in public(vars(c)):
+                if k not in names:
+                    names.append(k)
+    else:
+        return
+    for k in names:
+        try:
+            v = inspect.getattr_static(value, k) if isinstance(value, type) else getattr(value, k)
+        except Exception:
+            continue
+        scope_out[prefix + "." + k] = site_ident(v)
+        extend_sites(scope_out, prefix + "." + k, v, depth + 1, seen | {id(value)})
+
+
+def sites(mods):
+    """per namespace (module, class defined there): own names and their dotted extensions -> site identity"""
+    res = {}
+    classes = []
+    for q, m in mods.items():
+        sc = res.setdefault(q, {})
+        for k, v in public(vars(m)):
+            sc[k] = site_ident(v)
+            extend_sites(sc, k, v, 0, set())
+            if isinstance(v, type) and v.__module__ == q and v.__qualname__ == k:
+                classes.append((q + "." + k, v))
+    while classes:
+        sq, c = classes.pop()
+        sc = res.setdefault(sq, {})
+        for k, v in public(vars(c)):
+            sc[k] = site_ident(v)
+            extend_sites(sc, k, v, 0, set())
+            if isinstance(v, type) and v.__qualname__ == c.__qualname__ + "." + k and v.__module__ == c.__module__:
+                classes.append((sq + "." + k, v))
+    return res
 
 
 def run_project(p):
@@ -86,6 +147,8 @@ def run_project(p):
                     classes.append((sq + "." + k, v))
         if p.get("details"):
             out["details"] = details(mods)
+        if p.get("sites"):
+            out["sites"] = sites(mods)
     finally:
         if tmp in sys.path:
             sys.path.remove(tmp)
